@@ -18,8 +18,15 @@
 
   The object universe is the one of the C18 workload (harness/h_cfg.c): Int and String values, Array/List of them,
   Table/Tree from them to them.  Source-derived tables come from CelloGen/Cfg.lean (translate/g_cfg.py).
+
+  Second half (namespace `Keep`, end of the file): heap-graph programs whose containers are the SOLE path to collector-managed
+  objects — there the collector step is explicit (`kcollect` = GC_Mark; GC_Sweep of Cello/Heap.lean on what each type's Mark
+  instance presents, Table slot arrays from Cello/Table.lean).  `wrun` interleaves the two halves as the workload does.
 -/
 import CelloGen.Cfg
+import CelloGen.Table
+import Cello.Table
+import Cello.Heap
 
 namespace Cello.Config
 
@@ -743,5 +750,636 @@ instance (rs : List (Outcome Out)) : Decidable (InContract rs) :=
     · intro h r hr
       obtain ⟨o, ho⟩ := h r hr
       subst ho; rfl)
+
+
+/-! ## keep programs: containers as the sole path to collector-managed objects
+
+  The second half of the C18 workload (harness/h_cfg.c, operations `h…`).  A *holder* is a container that is the only thing
+  referring to collector-managed `Tracked` objects; the program fills it, allocates (which makes the collector run in the
+  builds that have one), and reads every element back.  Here the heap is a graph: managed blocks are addressed by their
+  allocation number, containers hold those numbers.
+
+  * what a program step can read is the part of the heap it can reach from its holder by following the pointers the
+    containers hold (`Cell.refs`: EVERY entry of a Table, every item of an Array …) — `subOne`;
+  * what the collector keeps is what `GC_Mark` marks: `Cello.Heap.collect` (the model of src/GC.c proved complete in C01) run
+    on the translation `toObj`, which spells out what each type's Mark instance hands to the collector — Array_Mark the first
+    `nitems` items, Table_Mark the slots below the bound read from the source (`CelloGen.Cfg.tableMarkBound`), Tree_Mark every
+    node in order, List_Mark every node, Tuple_Mark the items up to Terminal, Thread_Mark its table; Ref, Box, KCell and
+    Tracked have no Mark instance and are scanned conservatively, word by word;
+  * the two coincide only if every Mark instance covers everything the container holds: that is lemma `refs_fields`
+    (CelloProofs/Lemmas/CfgKeep.lean), and it is what a change like "Table_Mark walks `nitems` slots" falsifies. -/
+namespace Keep
+
+inductive Side where
+  | key | val
+deriving DecidableEq, Repr, Inhabited
+
+inductive Kind where
+  | array | list | tableV | tableK | treeV | treeK | tuple | chain | tls
+deriving DecidableEq, Repr, Inhabited
+
+def Kind.isSeq : Kind → Bool
+  | .array | .list | .tuple | .chain => true
+  | _ => false
+
+/-- a managed block (`alloc` + `GC_Set`) -/
+inductive Cell where
+  /-- `struct Tracked { int64_t id; int64_t pay; var link; }`: a plain struct, traced by the conservative scan -/
+  | tracked (ident pay : Int) (link : Option Nat)
+  /-- heap `Ref` / `Box`: one pointer -/
+  | ref (box : Bool) (val : Option Nat)
+  /-- heap `Tuple`: the stored pointers up to `Terminal` -/
+  | tuple (items : List Nat)
+  /-- `Array` of `Ref`: item `i` is an embedded Ref holding a pointer -/
+  | array (items : List Nat)
+  /-- `List` of `Ref` -/
+  | list (items : List Nat)
+  /-- `Table`: `side = val`: Int key ↦ embedded Ref; `side = key`: embedded KCell (number, pointer) ↦ Int.  The slot array is
+      the one of src/Table.c (robin-hood placement: Cello/Table.lean) -/
+  | table (side : Side) (t : Cello.Table.Tab Int Nat)
+  /-- `Tree`, the same two element layouts; kept sorted by key (the in-order walk of Tree_Iter_Init/Next) -/
+  | tree (side : Side) (kvs : List (Int × Nat))
+
+instance : Inhabited Cell := ⟨.ref false none⟩
+
+/-- every entry stored in the slot array -/
+def tabEntries (t : Cello.Table.Tab Int Nat) : List (Int × Nat) :=
+  t.slots.toList.filterMap (fun e => e.map (fun e => (e.key, e.val)))
+
+/-- **what a block refers to**: every pointer the program can obtain from it through the public API -/
+def Cell.refs : Cell → List Nat
+  | .tracked _ _ l => l.toList
+  | .ref _ v => v.toList
+  | .tuple xs => xs
+  | .array xs => xs
+  | .list xs => xs
+  | .table _ t => (tabEntries t).map (·.2)
+  | .tree _ kvs => kvs.map (·.2)
+
+abbrev KHeap := List (Nat × Cell)
+
+/-- a holder slot of the program (a variable in `main`'s frame: the collector finds it on the stack) -/
+structure Slot where
+  h : Nat
+  kind : Kind
+  root : Option Nat        -- the container object; `none` for thread-local storage
+deriving Repr
+
+structure KSt where
+  next : Nat                          -- allocation counter
+  heap : KHeap                        -- managed blocks that have not been freed
+  slots : List Slot
+  tls : List ((Nat × Int) × Nat)      -- `current(Thread)`'s table: key "keep<h>_<k>" ↦ Ref to the object
+  used : List Int                     -- serial numbers the program has given to Tracked objects
+  junk : Nat                          -- registered garbage without pointers (the `new(Int)`s of `hchurn`)
+  mitems : Nat                        -- `gc->mitems`
+  collections : Nat := 0              -- statistics only: collections run so far
+
+def KSt.init : KSt := { next := 0, heap := [], slots := [], tls := [], used := [], junk := 0, mitems := 0 }
+instance : Inhabited KSt := ⟨KSt.init⟩
+
+/-! ### the collector on this heap: `GC_Mark; GC_Sweep` of Cello/Heap.lean on what the Mark instances present -/
+
+/-- the address of block `i` (8-aligned, as `calloc` + a header of whole words gives) -/
+def addr (i : Nat) : Nat := 8 * (i + 1)
+def optAddr : Option Nat → Nat
+  | none => 0
+  | some i => addr i
+/-- an `int64_t` as the machine word the conservative scan reads -/
+def wordOfInt (x : Int) : Nat := (x % 18446744073709551616).toNat
+
+/-- key and value object of one Table / Tree entry, as `f(gc, key); f(gc, val);` presents them: embedded, with their own
+    header, not registered, so `GC_Mark_And_Recurse` goes to `GC_Recurse` -/
+def entryObjs (side : Side) (k : Int) (i : Nat) : List Cello.Heap.Obj :=
+  match side with
+  | .val => [.raw "Int" [wordOfInt k], .raw "Ref" [addr i]]
+  | .key => [.raw "KCell" [wordOfInt k, addr i], .raw "Int" [0]]
+
+/-- `Table_Mark`: `for (i = 0; i < t-><bound>; i++) if (Table_Key_Hash(t, i) isnt 0) { f(gc, key); f(gc, val); }` with the
+    bound that is in the source now -/
+def tableMarkSlots (t : Cello.Table.Tab Int Nat) : List (Option (RH.Entry Int Nat)) :=
+  t.slots.toList.take (if CelloGen.Cfg.tableMarkBound = "nslots" then t.n else t.nitems)
+
+/-- what the collector is handed when it traces a block: `GC_Recurse` on this representation -/
+def toObj : Cell → Cello.Heap.Obj
+  | .tracked ident pay link => .raw "Tracked" [wordOfInt ident, wordOfInt pay, optAddr link]
+  | .ref box v => .raw (if box then "Box" else "Ref") [optAddr v]
+  | .tuple xs => .tup "Tuple" (xs.map addr)
+  | .array xs => .cont "Array" (xs.map (fun i => .raw "Ref" [addr i]))          -- Array_Mark: i < nitems
+  | .list xs => .cont "List" (xs.map (fun i => .raw "Ref" [addr i]))            -- List_Mark: from head while item
+  | .table side t => .cont "Table" ((tableMarkSlots t).flatMap (fun e => match e with
+      | none => []
+      | some e => entryObjs side e.key e.val))
+  | .tree side kvs => .cont "Tree" (kvs.flatMap (fun p => entryObjs side p.1 p.2))   -- Tree_Mark: in-order walk
+
+theorem lookup_mem_fst {β : Type} (i : Nat) (b : β) : ∀ (l : List (Nat × β)), l.lookup i = some b → (i, b) ∈ l
+  | [], h => by simp [List.lookup] at h
+  | (j, c) :: l, h => by
+    by_cases hk : i = j
+    · subst hk
+      simp [List.lookup] at h
+      simp [h]
+    · have hb : (i == j) = false := by simpa using hk
+      have h' : l.lookup i = some b := by simpa [List.lookup, hb] using h
+      exact List.mem_cons_of_mem _ (lookup_mem_fst i b l h')
+
+theorem addr_div (a : Nat) (h1 : a % 8 = 0) (h2 : 8 ≤ a) : addr (a / 8 - 1) = a := by
+  unfold addr; omega
+
+theorem addr_inv (i : Nat) : addr i % 8 = 0 ∧ 8 ≤ addr i ∧ addr i / 8 - 1 = i := by
+  unfold addr; omega
+
+/-- the collector's registry: every block of the heap, none of them a root entry (the program never calls `new_root`) -/
+def toHeap (s : KSt) : Cello.Heap.Heap where
+  lookup a := if a % 8 = 0 ∧ 8 ≤ a then (s.heap.lookup (a / 8 - 1)).map (fun c => ⟨toObj c, false⟩) else none
+  regs := s.heap.map (fun p => addr p.1)
+  minptr := 0
+  maxptr := addr s.next
+  complete := by
+    intro a e he
+    split at he
+    · rename_i hc
+      rcases hl : s.heap.lookup (a / 8 - 1) with _ | c
+      · rw [hl] at he; cases he
+      · have hm := lookup_mem_fst _ _ _ hl
+        refine List.mem_map.mpr ⟨_, hm, ?_⟩
+        exact addr_div a hc.1 hc.2
+    · cases he
+
+/-- the current thread as `GC_Mark` sees it: Thread_Mark → Table_Mark of the thread-local table (String ↦ Ref) -/
+def threadObj (s : KSt) : Cello.Heap.Obj :=
+  .thr "Thread" (.cont "Table" (s.tls.flatMap (fun e => [.raw "String" [], .raw "Ref" [addr e.2]])))
+
+/-- the words of `main`'s frame that are holder variables -/
+def stackWords (s : KSt) : List Nat := (s.slots.filterMap (·.root)).map addr
+
+/-- number of entries in the collector's registry -/
+def KSt.regCount (s : KSt) : Nat := s.heap.length + s.junk
+
+/-- **one collection**: `GC_Mark(gc); GC_Sweep(gc);` — unmarked blocks are finalised and freed -/
+def kcollect (s : KSt) : KSt :=
+  let r := Cello.Heap.collect Cello.Heap.listSet Cello.Heap.Cfg.current (toHeap s) (threadObj s) (stackWords s)
+  let hp := s.heap.filter (fun p => !(r.2.contains (addr p.1)))
+  { s with heap := hp, junk := 0, mitems := hp.length + hp.length / 2 + 1, collections := s.collections + 1 }
+
+/-! ### specification: what the program can still reach -/
+
+/-- the pointers held by holder variables and by thread-local storage -/
+def KSt.roots (s : KSt) : List Nat := s.slots.filterMap (·.root) ++ s.tls.map (·.2)
+
+/-- **Reachable**: a live block a holder variable or a thread-local entry points to, or a live block that a reachable
+    block refers to (`Cell.refs`: everything the container holds, whatever its Mark instance enumerates). -/
+inductive KReach (hp : KHeap) (roots : List Nat) : Nat → Prop
+  | root {i} : i ∈ roots → (hp.lookup i).isSome = true → KReach hp roots i
+  | step {i j c} : KReach hp roots i → hp.lookup i = some c → j ∈ c.refs → (hp.lookup j).isSome = true → KReach hp roots j
+
+/-! ### what one operation can see -/
+
+/-- depth to which an operation follows pointers from its holder (chains are at most 120 links of two blocks each) -/
+def depthCap : Nat := 300
+
+/-- the blocks reachable from `i` by following `refs`, to depth `d`, each with its contents (`none`: the block was freed) -/
+def subOne : Nat → KHeap → Nat → List (Nat × Option Cell)
+  | 0, _, _ => []
+  | d+1, hp, i =>
+    match hp.lookup i with
+    | none => [(i, none)]
+    | some c => (i, some c) :: c.refs.flatMap (fun j => subOne d hp j)
+
+structure View where
+  next : Nat
+  slots : List Slot
+  tls : List ((Nat × Int) × Nat)
+  used : List Int
+  sub : List (Nat × Option Cell)
+
+def rootsOf (slots : List Slot) (tls : List ((Nat × Int) × Nat)) (h : Nat) : List Nat :=
+  (slots.filter (fun s => s.h == h)).filterMap (·.root) ++ (tls.filter (fun e => e.1.1 == h)).map (·.2)
+
+def View.get (v : View) (i : Nat) : Option Cell :=
+  match v.sub.lookup i with
+  | some (some c) => some c
+  | _ => none
+
+/-- the blocks the operation has seen (and found alive) -/
+def View.ids (v : View) : List Nat := v.sub.filterMap (fun p => p.2.map (fun _ => p.1))
+
+/-! ### operations -/
+
+inductive KOp where
+  | hnew (h : Nat) (k : Kind)
+  | hput (h : Nat) (k id pay : Int)
+  | hget (h : Nat) (k : Int)
+  | hrem (h : Nat) (k : Int)
+  | hrel (h : Nat) (k : Int)
+  | hshrink (h : Nat) (n : Int)
+  | hreserve (h : Nat) (n : Int)
+  | hread (h : Nat)
+  | hchurn (m : Int)
+  | hdrop (h : Nat)
+  | hdel (h : Nat)
+  | gc
+deriving Repr, Inhabited
+
+inductive KOut where
+  | unit
+  | got (ident pay : Int)
+  | read (items : List (Int × Int × Int)) (stat : Option (Nat × Nat))
+  | churn (c : Int)
+deriving DecidableEq, Repr, Inhabited
+
+/-- what an operation does to the state: blocks written (`none` = `del`), how many blocks it allocated, the new holder
+    variables and thread-local entries -/
+structure Upd where
+  writes : List (Nat × Option Cell) := []
+  fresh : Nat := 0
+  slots : List Slot
+  tls : List ((Nat × Int) × Nat)
+  used : List Int
+  junk : Nat := 0
+  collect : Bool := false
+
+/-- **No pointer forging.** An operation may write only blocks it has seen or allocated, and may store (in a block, a holder
+    variable or thread-local storage) only pointers to such blocks — or leave a variable as it was. -/
+def Upd.ok (u : Upd) (v : View) : Bool :=
+  let allowed := v.ids ++ (List.range u.fresh).map (fun j => v.next + j)
+  let oldRoots := v.slots.filterMap (·.root) ++ v.tls.map (·.2)
+  let newRoots := u.slots.filterMap (·.root) ++ u.tls.map (·.2)
+  u.writes.all (fun w => allowed.contains w.1 && (match w.2 with
+    | none => true
+    | some c => c.refs.all (fun j => allowed.contains j))) &&
+  newRoots.all (fun i => allowed.contains i || oldRoots.contains i)
+
+def tcfg : Cello.Table.Cfg :=
+  { ge := CelloGen.Table.tieGe, growEmpty := CelloGen.Table.setGrowsEmpty,
+    ideal := Cello.Table.idealSize CelloGen.Table.primes CelloGen.Table.loadNum CelloGen.Table.loadDen }
+
+/-- `Int_Hash` / `KCell_Hash` of a non-negative number -/
+def hashInt (k : Int) : Nat := k.toNat
+
+def insAt {α : Type} (xs : List α) (i : Nat) (x : α) : List α := xs.take i ++ x :: xs.drop i
+def remAt {α : Type} (xs : List α) (i : Nat) : List α := xs.take i ++ xs.drop (i + 1)
+
+def indexed (xs : List Nat) : List (Int × Nat) := ((List.range xs.length).zip xs).map (fun p => ((p.1 : Int), p.2))
+
+def treeIns (kv : Int × Nat) : List (Int × Nat) → List (Int × Nat)
+  | [] => [kv]
+  | x :: xs => if kv.1 < x.1 then kv :: x :: xs else x :: treeIns kv xs
+
+def sortByKey {α : Type} (xs : List (Int × α)) : List (Int × α) :=
+  xs.foldl (fun acc kv =>
+    let rec ins : List (Int × α) → List (Int × α)
+      | [] => [kv]
+      | x :: r => if kv.1 < x.1 then kv :: x :: r else x :: ins r
+    ins acc) []
+
+/-- a chain `head → link → Tracked → link → Tracked …`: the (link, object) pairs in order -/
+def chainWalk (get : Nat → Option Cell) : Nat → Option Nat → Option (List (Nat × Nat))
+  | _, none => some []
+  | 0, some _ => none
+  | f+1, some l =>
+    match get l with
+    | some (.ref _ (some t)) =>
+      match get t with
+      | some (.tracked _ _ link) => (chainWalk get f link).map (fun r => (l, t) :: r)
+      | _ => none
+    | _ => none
+
+/-- the elements of a holder, with their keys (sequences: the index), in container order -/
+def elems (v : View) (s : Slot) : Option (List (Int × Nat)) :=
+  match s.kind, s.root with
+  | .tls, _ => some ((v.tls.filter (fun e => e.1.1 == s.h)).map (fun e => (e.1.2, e.2)))
+  | k, some r =>
+    match k, v.get r with
+    | .array, some (.array xs) => some (indexed xs)
+    | .list, some (.list xs) => some (indexed xs)
+    | .tuple, some (.tuple xs) => some (indexed xs)
+    | .tableV, some (.table _ t) => some (tabEntries t)
+    | .tableK, some (.table _ t) => some (tabEntries t)
+    | .treeV, some (.tree _ kvs) => some kvs
+    | .treeK, some (.tree _ kvs) => some kvs
+    | .chain, some (.ref _ v0) => (chainWalk v.get depthCap v0).map (fun ps => indexed (ps.map (·.2)))
+    | _, _ => none
+  | _, none => none
+
+def readTracked (v : View) (i : Nat) : Option (Int × Int) :=
+  match v.get i with
+  | some (.tracked ident pay _) => some (ident, pay)
+  | _ => none
+
+def emptyCell : Kind → Cell
+  | .array => .array []
+  | .list => .list []
+  | .tableV => .table .val (Cello.Table.new tcfg)
+  | .tableK => .table .key (Cello.Table.new tcfg)
+  | .treeV => .tree .val []
+  | .treeK => .tree .key []
+  | .tuple => .tuple []
+  | .chain => .ref false none
+  | .tls => .ref false none
+
+def maxH : Nat := 8
+def maxElems : Nat := 120
+def maxSerial : Int := 4096
+
+/-- `churn_round(m)`: the sum of the `m` short-lived Ints -/
+def churnSum (m : Nat) : Int := (List.range m).foldl (fun a j => a + ((j % 7 : Nat) : Int)) 0
+
+/-- position of key `k` among the elements -/
+def posOf (isSeq : Bool) (es : List (Int × Nat)) (k : Int) : Option Nat :=
+  if isSeq then (if 0 ≤ k ∧ k < (es.length : Int) then some k.toNat else none)
+  else es.findIdx? (fun e => e.1 == k)
+
+def setLink (v : View) (t : Nat) (l : Option Nat) : Option (Nat × Option Cell) :=
+  match v.get t with
+  | some (.tracked i p _) => some (t, some (.tracked i p l))
+  | _ => none
+
+def allSome {α : Type} : List (Option α) → Option (List α)
+  | [] => some []
+  | none :: _ => none
+  | some x :: r => (allSome r).map (x :: ·)
+
+/-- Decode an operation against what it can see: `none` = outside the contract (refused by the workload before the call).
+    Does not look at the configuration, the registry or anything the operation cannot reach. -/
+def plan (op : KOp) (v : View) : Option (Upd × KOut) :=
+  let same : Upd := { slots := v.slots, tls := v.tls, used := v.used }
+  match op with
+  | .gc => some ({ same with collect := true }, .unit)
+  | .hchurn m => if m < 0 || m > 400 then none else some ({ same with junk := m.toNat }, .churn (churnSum m.toNat))
+  | .hnew h kind =>
+    if h ≥ maxH || v.slots.any (fun s => s.h == h) then none else
+    match kind with
+    | .tls => some ({ same with slots := ⟨h, kind, none⟩ :: v.slots }, .unit)
+    | _ => some ({ same with writes := [(v.next, some (emptyCell kind))], fresh := 1,
+                               slots := ⟨h, kind, some v.next⟩ :: v.slots }, .unit)
+  | .hput h k id pay =>
+    if h ≥ maxH then none else
+    match v.slots.find? (fun s => s.h == h) with
+    | none => none
+    | some s =>
+    match elems v s with
+    | none => none
+    | some es =>
+    let n := es.length
+    if id < 0 || id ≥ maxSerial || v.used.contains id || pay < 0 || pay > 1000000000 || n ≥ maxElems then none else
+    if s.kind.isSeq && (k < 0 || k > (n : Int)) then none else
+    if !s.kind.isSeq && (k < 0 || k > 1000000 || es.any (fun e => e.1 == k)) then none else
+    let t := v.next
+    let tw : Nat × Option Cell := (t, some (.tracked id pay none))
+    let used := id :: v.used
+    match s.kind, s.root with
+    | .tls, _ => some ({ same with writes := [tw], fresh := 1, tls := ((h, k), t) :: v.tls, used := used }, .unit)
+    | _, none => none
+    | _, some r =>
+      match v.get r with
+      | some (.array xs) => some ({ same with writes := [tw, (r, some (.array (insAt xs k.toNat t)))], fresh := 1, used := used }, .unit)
+      | some (.list xs) => some ({ same with writes := [tw, (r, some (.list (insAt xs k.toNat t)))], fresh := 1, used := used }, .unit)
+      | some (.tuple xs) => some ({ same with writes := [tw, (r, some (.tuple (insAt xs k.toNat t)))], fresh := 1, used := used }, .unit)
+      | some (.table side tb) =>
+        match Cello.Table.set tcfg hashInt tb k t with
+        | .ok tb' => some ({ same with writes := [tw, (r, some (.table side tb'))], fresh := 1, used := used }, .unit)
+        | .error _ => none
+      | some (.tree side kvs) => some ({ same with writes := [tw, (r, some (.tree side (treeIns (k, t) kvs)))], fresh := 1, used := used }, .unit)
+      | some (.ref hb v0) =>
+        match chainWalk v.get depthCap v0 with
+        | none => none
+        | some ps =>
+          let l := v.next + 1
+          let succ : Option Nat := (ps[k.toNat]?).map (·.1)
+          let ws : List (Nat × Option Cell) := [(t, some (.tracked id pay succ)), (l, some (.ref (id % 2 == 1) (some t)))]
+          if k = 0 then some ({ same with writes := ws ++ [(r, some (.ref hb (some l)))], fresh := 2, used := used }, .unit)
+          else match ps[k.toNat - 1]? with
+            | none => none
+            | some (_, pt) =>
+              match setLink v pt (some l) with
+              | some w => some ({ same with writes := ws ++ [w], fresh := 2, used := used }, .unit)
+              | none => none
+      | _ => none
+  | .hget h k =>
+    if h ≥ maxH then none else
+    match v.slots.find? (fun s => s.h == h) with
+    | none => none
+    | some s =>
+    match elems v s with
+    | none => none
+    | some es =>
+    match posOf s.kind.isSeq es k with
+    | none => none
+    | some pos =>
+      match es[pos]? with
+      | none => none
+      | some e =>
+        match readTracked v e.2 with
+        | some (i, p) => some (same, .got i p)
+        | none => none
+  | .hrem h k | .hrel h k =>
+    let del : Bool := match op with | .hrem _ _ => true | _ => false
+    if h ≥ maxH then none else
+    match v.slots.find? (fun s => s.h == h) with
+    | none => none
+    | some s =>
+    match elems v s with
+    | none => none
+    | some es =>
+    match posOf s.kind.isSeq es k with
+    | none => none
+    | some pos =>
+      match es[pos]? with
+      | none => none
+      | some e =>
+        let kill : List (Nat × Option Cell) := if del then [(e.2, none)] else []
+        match s.kind, s.root with
+        | .tls, _ => some ({ same with writes := kill, tls := v.tls.filter (fun x => !(x.1.1 == h && x.1.2 == k)) }, .unit)
+        | _, none => none
+        | _, some r =>
+          match v.get r with
+          | some (.array xs) => some ({ same with writes := (r, some (.array (remAt xs pos))) :: kill }, .unit)
+          | some (.list xs) => some ({ same with writes := (r, some (.list (remAt xs pos))) :: kill }, .unit)
+          | some (.tuple xs) => some ({ same with writes := (r, some (.tuple (remAt xs pos))) :: kill }, .unit)
+          | some (.table side tb) =>
+            match Cello.Table.rem tcfg hashInt tb k with
+            | .ok (tb', _) => some ({ same with writes := (r, some (.table side tb')) :: kill }, .unit)
+            | .error _ => none
+          | some (.tree side kvs) => some ({ same with writes := (r, some (.tree side (kvs.filter (fun x => !(x.1 == k))))) :: kill }, .unit)
+          | some (.ref hb v0) =>
+            match chainWalk v.get depthCap v0 with
+            | none => none
+            | some ps =>
+              match ps[pos]? with
+              | none => none
+              | some (l, t) =>
+                match v.get t with
+                | some (.tracked ti tp tlink) =>
+                  let me : List (Nat × Option Cell) := if del then [(t, none), (l, none)] else [(t, some (.tracked ti tp none))]
+                  if pos = 0 then some ({ same with writes := (r, some (.ref hb tlink)) :: me }, .unit)
+                  else match ps[pos - 1]? with
+                    | none => none
+                    | some (_, pt) =>
+                      match setLink v pt tlink with
+                      | some w => some ({ same with writes := w :: me }, .unit)
+                      | none => none
+                | _ => none
+          | _ => none
+  | .hshrink h n =>
+    if h ≥ maxH then none else
+    match v.slots.find? (fun s => s.h == h) with
+    | none => none
+    | some s =>
+    match elems v s with
+    | none => none
+    | some es =>
+    if n < 0 || n > (es.length : Int) then none else
+    if !s.kind.isSeq && n ≠ 0 then none else
+    match s.kind, s.root with
+    | .tls, _ => some ({ same with tls := v.tls.filter (fun x => !(x.1.1 == h)) }, .unit)
+    | _, none => none
+    | _, some r =>
+      match v.get r with
+      | some (.array xs) => some ({ same with writes := [(r, some (.array (xs.take n.toNat)))] }, .unit)
+      | some (.list xs) => some ({ same with writes := [(r, some (.list (xs.take n.toNat)))] }, .unit)
+      | some (.tuple xs) => some ({ same with writes := [(r, some (.tuple (xs.take n.toNat)))] }, .unit)
+      | some (.table side tb) => some ({ same with writes := [(r, some (.table side (Cello.Table.clear tb)))] }, .unit)
+      | some (.tree side _) => some ({ same with writes := [(r, some (.tree side []))] }, .unit)
+      | some (.ref hb v0) =>
+        if n = 0 then some ({ same with writes := [(r, some (.ref hb none))] }, .unit) else
+        match chainWalk v.get depthCap v0 with
+        | none => none
+        | some ps =>
+          match ps[n.toNat - 1]? with
+          | none => none
+          | some (_, pt) =>
+            match setLink v pt none with
+            | some w => some ({ same with writes := [w] }, .unit)
+            | none => none
+      | _ => none
+  | .hreserve h n =>
+    if h ≥ maxH then none else
+    match v.slots.find? (fun s => s.h == h) with
+    | none => none
+    | some s =>
+    match elems v s with
+    | none => none
+    | some es =>
+    if !(s.kind == .tableV || s.kind == .tableK) || n < (es.length : Int) || n < 1 || n > 400 then none else
+    match s.root with
+    | none => none
+    | some r =>
+      match v.get r with
+      | some (.table side tb) =>
+        match Cello.Table.resize tcfg hashInt tb n.toNat with
+        | .ok (tb', _) => some ({ same with writes := [(r, some (.table side tb'))] }, .unit)
+        | .error _ => none
+      | _ => none
+  | .hread h =>
+    if h ≥ maxH then none else
+    match v.slots.find? (fun s => s.h == h) with
+    | none => none
+    | some s =>
+    match elems v s with
+    | none => none
+    | some es =>
+      let es := if s.kind.isSeq then es else sortByKey es
+      match allSome (es.map (fun e => (readTracked v e.2).map (fun ip => (e.1, ip.1, ip.2)))) with
+      | none => none
+      | some items =>
+        let stat : Option (Nat × Nat) := match s.root.bind v.get with
+          | some (.table _ tb) => some (tb.n, ((tb.slots.toList.drop tb.nitems).filter (·.isSome)).length)
+          | _ => none
+        some (same, .read items stat)
+  | .hdrop h =>
+    if h ≥ maxH then none else
+    match v.slots.find? (fun s => s.h == h) with
+    | none => none
+    | some _ => some ({ same with slots := v.slots.filter (fun x => !(x.h == h)), tls := v.tls.filter (fun x => !(x.1.1 == h)) }, .unit)
+  | .hdel h =>
+    if h ≥ maxH then none else
+    match v.slots.find? (fun s => s.h == h) with
+    | none => none
+    | some s =>
+    match elems v s with
+    | none => none
+    | some es =>
+      let links : List Nat := match s.kind, s.root.bind v.get with
+        | .chain, some (.ref _ v0) => ((chainWalk v.get depthCap v0).getD []).map (·.1)
+        | _, _ => []
+      let ws : List (Nat × Option Cell) := (s.root.toList ++ links ++ es.map (·.2)).map (fun i => (i, none))
+      some ({ same with writes := ws, slots := v.slots.filter (fun x => !(x.h == h)), tls := v.tls.filter (fun x => !(x.1.1 == h)) }, .unit)
+
+def opHolder : KOp → Option Nat
+  | .hnew h _ | .hput h _ _ _ | .hget h _ | .hrem h _ | .hrel h _ | .hshrink h _ | .hreserve h _ | .hread h | .hdrop h | .hdel h => some h
+  | .hchurn _ | .gc => none
+
+/-- what the operation can see: the holder variables, thread-local storage, and the blocks reachable from its holder -/
+def view (op : KOp) (s : KSt) : View :=
+  { next := s.next, slots := s.slots, tls := s.tls, used := s.used,
+    sub := match opHolder op with
+      | none => []
+      | some h => (rootsOf s.slots s.tls h).flatMap (fun i => subOne depthCap s.heap i) }
+
+def putCell (hp : KHeap) (i : Nat) (c : Option Cell) : KHeap :=
+  match c with
+  | none => hp.filter (fun p => !(p.1 == i))
+  | some c => (i, c) :: hp.filter (fun p => !(p.1 == i))
+
+def applyWrites (hp : KHeap) (ws : List (Nat × Option Cell)) : KHeap := ws.foldl (fun hp w => putCell hp w.1 w.2) hp
+
+/-- the state after the operation, before the collector gets a chance -/
+def applyRaw (u : Upd) (s : KSt) : KSt :=
+  { s with next := s.next + u.fresh, heap := applyWrites s.heap u.writes, slots := u.slots, tls := u.tls, used := u.used,
+           junk := s.junk + u.junk }
+
+/-- … and then the collector of this configuration: a forced collection, or `GC_Set` finding the registry above its
+    threshold (`alloc_by` registers every block only `#ifndef CELLO_NGC`); `GC_Rem` recomputes the threshold -/
+def gcTail (cfg : Cfg) (u : Upd) (s1 : KSt) : KSt :=
+  if cfg.gc then
+    let s2 := if u.writes.any (fun w => w.2.isNone) then { s1 with mitems := s1.regCount + s1.regCount / 2 + 1 } else s1
+    if u.collect || (decide (u.fresh + u.junk > 0) && decide (s2.regCount > s2.mitems)) then kcollect s2 else s2
+  else s1
+
+def applyUpd (cfg : Cfg) (u : Upd) (s : KSt) : KSt := gcTail cfg u (applyRaw u s)
+
+def kstep (cfg : Cfg) (op : KOp) (s : KSt) : KSt × Outcome KOut :=
+  let v := view op s
+  match plan op v with
+  | none => (s, .ub)
+  | some (u, out) => if u.ok v then (applyUpd cfg u s, .ok out) else (s, .ub)
+
+def krun (cfg : Cfg) : List KOp → KSt → KSt × List (Outcome KOut)
+  | [], s => (s, [])
+  | op :: rest, s =>
+    let r := kstep cfg op s
+    let r2 := krun cfg rest r.1
+    (r2.1, r.2 :: r2.2)
+
+end Keep
+
+/-! ## the whole workload: operations on value objects and keep operations, interleaved (what lean/Driver/Cfg.lean runs) -/
+
+inductive WOp where
+  | main (op : Op)
+  | keep (k : Keep.KOp)
+
+/-- a forced collection (`gc`) also sweeps the garbage of the keep programs -/
+def keepAfter (cfg : Cfg) (op : Op) (k : Keep.KSt) : Keep.KSt :=
+  match op with
+  | .gc => (Keep.kstep cfg .gc k).1
+  | _ => k
+
+def wstep (cfg : Cfg) (w : WOp) (s : St × Keep.KSt) : (St × Keep.KSt) × (Outcome Out ⊕ Outcome Keep.KOut) :=
+  match w with
+  | .main op => let r := step cfg op s.1; ((r.1, keepAfter cfg op s.2), .inl r.2)
+  | .keep ko => let r := Keep.kstep cfg ko s.2; ((s.1, r.1), .inr r.2)
+
+def wrun (cfg : Cfg) : List WOp → St × Keep.KSt → (St × Keep.KSt) × List (Outcome Out ⊕ Outcome Keep.KOut)
+  | [], s => (s, [])
+  | w :: rest, s =>
+    let r := wstep cfg w s
+    let r2 := wrun cfg rest r.1
+    (r2.1, r.2 :: r2.2)
+
+/-- no step on value objects left the contract (keep operations outside the contract are refused alike in every configuration) -/
+def WInContract (rs : List (Outcome Out ⊕ Outcome Keep.KOut)) : Prop :=
+  ∀ r ∈ rs, ∀ o, r = .inl o → ∃ out, o = .ok out
 
 end Cello.Config
